@@ -214,14 +214,35 @@ fn fa_rec(r: &fasta::RefRecord) -> String {
     let b = matches!(r.full_seq(), Cow::Borrowed(_));
     let mut u = vec![];
     r.write_unchanged(&mut u).unwrap();
+    let (idb, descb) = r.id_desc_bytes();
+    let v = format!(
+        "{}{}{}",
+        r.id().is_ok() as u8,
+        r.desc().map(|d| d.is_ok()).unwrap_or(true) as u8,
+        r.id_desc().is_ok() as u8
+    );
+    // the three ways to get id / description must agree
+    let agree = idb == r.id_bytes()
+        && descb == r.desc_bytes()
+        && match r.id_desc() {
+            Ok((i, d)) => i.as_bytes() == idb && d.map(|x| x.as_bytes()) == descb,
+            Err(_) => true,
+        };
     format!(
-        "h={}:l={}:r={}:n={}:b={}:u={}",
+        "h={}:l={}:r={}:n={}:b={}:u={}:i={}:d={}:v={}{}",
         hex(r.head()),
         lines,
         hex(r.seq()),
         n,
         if b { 1 } else { 0 },
-        hex(&u)
+        hex(&u),
+        hex(idb),
+        match descb {
+            None => "-".to_string(),
+            Some(d) => format!("~{}", hex(d)),
+        },
+        v,
+        agree as u8
     )
 }
 
@@ -343,7 +364,33 @@ fn fq_rec(r: &fastq::RefRecord) -> String {
     use fastq::Record;
     let mut u = vec![];
     r.write_unchanged(&mut u).unwrap();
-    format!("h={}:s={}:q={}:u={}", hex(r.head()), hex(r.seq()), hex(r.qual()), hex(&u))
+    let (idb, descb) = r.id_desc_bytes();
+    let v = format!(
+        "{}{}{}",
+        r.id().is_ok() as u8,
+        r.desc().map(|d| d.is_ok()).unwrap_or(true) as u8,
+        r.id_desc().is_ok() as u8
+    );
+    let agree = idb == r.id_bytes()
+        && descb == r.desc_bytes()
+        && match r.id_desc() {
+            Ok((i, d)) => i.as_bytes() == idb && d.map(|x| x.as_bytes()) == descb,
+            Err(_) => true,
+        };
+    format!(
+        "h={}:s={}:q={}:u={}:i={}:d={}:v={}{}",
+        hex(r.head()),
+        hex(r.seq()),
+        hex(r.qual()),
+        hex(&u),
+        hex(idb),
+        match descb {
+            None => "-".to_string(),
+            Some(d) => format!("~{}", hex(d)),
+        },
+        v,
+        agree as u8
+    )
 }
 
 fn fq_owned(r: &fastq::OwnedRecord) -> String {
